@@ -1258,9 +1258,9 @@ def strat_persist(tier):
 # =================================================================================================
 
 SUBS = [
-    Sub("contain", check_contain, strategy=strat_contain, quick=160, thorough=4000, workers_quick=4),
-    Sub("deny", check_deny, strategy=strat_deny, quick=100, thorough=2500, workers_quick=4),
-    Sub("persist", check_persist, strategy=strat_persist, quick=70, thorough=2000, workers_quick=4),
+    Sub("contain", check_contain, strategy=strat_contain, quick=500, thorough=4000, workers_quick=4),
+    Sub("deny", check_deny, strategy=strat_deny, quick=300, thorough=2500, workers_quick=4),
+    Sub("persist", check_persist, strategy=strat_persist, quick=200, thorough=2000, workers_quick=4),
 ]
 
 _BASE_C = {"rname": "root", "sibs": ["2"], "nest": False, "rootform": "plain", "ctx": "archive", "links": []}
